@@ -6,6 +6,8 @@
    [count], [at_], [dur] are the formulas of const.go/line.go/do_at.go in exact arithmetic. *)
 From Coq Require Import String ZArith QArith Qround List Bool.
 From PV Require Import Model.Sched Model.SchedExpr Proofs.SchedArith Proofs.SchedQ Proofs.SchedProofs Proofs.SchedStep Gen.SchedGen Gen.Sched_bridge.
+From Coq Require Import Reals.
+From PV Require Import Proofs.SchedReal.
 Import ListNotations.
 Local Open Scope Z_scope.
 
@@ -114,6 +116,20 @@ Proof.
   split; [exact bridge_line_n|exact bridge_line_at].
 Qed.
 Print Assumptions C01_source_formulas.
+
+(* Real-number side (Coq Reals): the closed form lineDoAt evaluates inverts the integral of
+   the line rate, and the integer formula of the model (Z.sqrt + floor division) is exactly
+   the truncation of that real-number expression with the slope and intercept NewLine passes. *)
+Theorem C01_closed_form :
+  (forall a b i : R, a <> 0%R -> (0 <= 2 * a * i + b * b)%R ->
+     let x := ((sqrt (2 * a * i + b * b) - b) / a)%R in (a * x * x / 2 + b * x = i)%R) /\
+  (forall (f t : Q) (D k x : Z),
+     valid (PLine f t D) -> ~ (f == t)%Q -> 0 <= k -> line_at f t D k = Some x ->
+     let X := line_at_R (slopeR (rn_from f t) (rn_to f t) (rn_den f t) D)
+                        (interceptR (rn_from f t) (rn_den f t)) (IZR k) in
+     (IZR x <= X < IZR x + 1)%R).
+Proof. split; [exact closed_form_inverts|exact line_at_is_trunc]. Qed.
+Print Assumptions C01_closed_form.
 
 (* non-vacuity: the profile of the defect report (0 -> 10 rps over 1.5 s) is valid, has 7
    operations, the last at 1 341 640 786 ns *)
